@@ -270,6 +270,7 @@ func c04histories(env sched.Env) *sched.Report {
 					sched.Progress(cs)
 					sig, detail := c04run(cs)
 					rep.Execs++
+					sched.Progress(nil)
 					rep.Transitions += int64(len(ops))
 					if sig != "" {
 						rep.Outcomes["violation: "+sig]++
@@ -300,6 +301,7 @@ func c04histories(env sched.Env) *sched.Report {
 		cs := c04case{Ops: h}
 		sig, detail := c04run(cs)
 		rep.Execs++
+		sched.Progress(nil)
 		if sig != "" && !sigs[sig] {
 			sigs[sig] = true
 			rep.Violations = append(rep.Violations, sched.CustomViolation("C04/histories", sig, detail, cs))
